@@ -60,7 +60,14 @@ CFG = dict(
          "inside RecvMsg while the handler's main goroutine sends / returns: push-while-receiving (the caller waits for the n pushes before it "
          "sends and half-closes) and return-while-receiving (the handler returns nil while its receiver goroutine is parked in RecvMsg; the "
          "caller must get the n pushes, then io.EOF), n in 0..2, two kinds, the receiver stepped first; 1 in 6 of the streams of (B) and (C) "
-         "has such a handler (a RecvMsg of the receiver goroutine that fails after the handler returned is not an error); two services x two stream methods of each kind, each with its own handler "
+         "has such a handler (a RecvMsg of the receiver goroutine that fails after the handler returned is not an error); (A6) full-duplex use over "
+         "a link WITHOUT slack (goat's channel transport over unbuffered channels, by reference), free-running under the wedge detection: a "
+         "concurrent handler against a caller that sends n in {8, 20, 100} messages before it starts receiving, a caller with sender and receiver "
+         "goroutines against an echo handler (n in {20, 100}), both sides concurrent (random programs are NOT run over this link: a caller and a "
+         "handler that both send before they receive deadlock there by themselves, which is flow control, not a defect); every RecvMsg - caller's "
+         "and handler's - goes into ONE reused, pre-populated message object per stream, zero-byte messages mixed with others; every lock-step "
+         "scenario runs under the wedge watcher of harness/wedge.go (no step for a second, a goroutine of the bubble waiting for a lock, nothing "
+         "running: the scenario is a failing input, the run resumes after it); two services x two stream methods of each kind, each with its own handler "
          "(a wrong-handler dispatch fails the stream); (B) 260 (thorough 900; 2000 until round 2, cut to keep the thorough tier under 15 minutes now that half of the cases find quiescence "
          "by goroutine dumps) seeded random lock-step schedules over {user step, handler step, deliver c2s, deliver "
          "s2c, release}: 1..4 (thorough up to 32) concurrent streams x 3 kinds x counts {0,1,2,5,20} (thorough 50, 200) x caller programs "
